@@ -62,6 +62,9 @@ TEMPS = {
     'updown': lambda tf: ([0.0, 0.5 * tf / 3600, tf / 3600], [750.0, 1000.0, 750.0]),
     'jump': lambda tf: (lambda t: 700.0 if t < 0.3 * tf else 1150.0),        # step above the solvus
     'jumpdown': lambda tf: (lambda t: 1150.0 if t < 0.3 * tf else 700.0),    # quench
+    # Al-Zr (real backend): 450 C hold, and a slow heating ramp 430 -> 480 C
+    'alzr_iso': lambda tf: 723.15,
+    'alzr_ramp': lambda tf: (lambda t: 703.15 + 50.0 * min(max(t / tf, 0.0), 1.0)),
 }
 
 
@@ -127,7 +130,30 @@ def make_thermo(c, faults=None):
         if c.get('phase_order'):
             specs = [specs[i] for i in c['phase_order']]
         return st.SynthTernary(specs, faults=f), [s.name for s in specs], ['B', 'C']
+    if c['system'] == 'alzr':
+        # real pycalphad backend (conformance for the analytic environments): Al-Zr, FCC_A1 + AL3ZR, database string shipped
+        # with the repository's tests; the object is built once per process and shared (its caches are part of what is tested)
+        return real_thermo('alzr'), ['AL3ZR'], ['ZR']
     raise KeyError(c['system'])
+
+
+_REAL = {}
+
+
+def real_thermo(name):
+    if name not in _REAL:
+        if name == 'alzr':
+            from kawin.tests.datasets import ALZR_TDB
+            from kawin.thermo import BinaryThermodynamics
+            th = BinaryThermodynamics(ALZR_TDB, ['AL', 'ZR'], ['FCC_A1', 'AL3ZR'], drivingForceMethod='tangent')
+            th.setDFSamplingDensity(2000)
+            th.setEQSamplingDensity(500)
+            th.setDiffusivity(lambda T: 0.0768 * np.exp(-242000 / (8.314 * T)), 'FCC_A1')
+            th.faults = st.Faults()
+            _REAL[name] = th
+        else:
+            raise KeyError(name)
+    return _REAL[name]
 
 
 PHASE_PARAMS = {   # per analytic phase: gamma multiplier, Vm multiplier, default site override
@@ -146,7 +172,7 @@ def build_model(cfg, therm=None, names=None, elements=None):
     m.setPBMParameters(cMin=pb[0], cMax=pb[1], bins=pb[2], minBins=pb[3], maxBins=pb[4], adaptive=c['adaptive'])
     x0 = c['x0']
     if x0 is None:
-        x0 = 0.01 if len(elements) == 1 else [0.02, 0.01]
+        x0 = (4e-3 if c['system'] == 'alzr' else 0.01) if len(elements) == 1 else [0.02, 0.01]
     m.setInitialComposition(x0)
     tf = c['tf']
     tv = TEMPS[c['temp']](tf)
